@@ -31,7 +31,7 @@ import (
 // a buffer that was put back to the next user and lets its contents change; the native replay runs with one P so that
 // the real pools behave that way too.)
 //
-//verif:harness prop=C08 name=encrypt_streams_independent threads=4 sched=delay preempt=0 unwind=200 race=off witness=lenient
+//verif:harness prop=C08 name=encrypt_streams_independent threads=4 sched=delay preempt=0 unwind=200 race=off witness=lenient replay_attempts=6
 func VerifEncryptStreamsIndependent() {
 	zzverifstubs.Init()
 	vWires = nil
